@@ -866,7 +866,17 @@ pub fn run_c08(tier: Tier) -> i32 {
         Tier::Quick => vec![("3conns/5calls/8events", mk(3, 5, 8, false, false, false), 0), ("2conns/4calls/6events+dev", mk(2, 4, 6, true, true, true), 2), ("3conns/4calls/7events+dev", mk(3, 4, 7, true, true, true), 1)],
         Tier::Thorough => vec![("4conns/6calls/9events", mk(4, 6, 9, false, false, false), 0), ("3conns/5calls/7events+dev", mk(3, 5, 7, true, true, true), 2), ("2conns/4calls/6events+dev3", mk(2, 4, 6, true, true, true), 3), ("4conns/5calls/8events+dev", mk(4, 5, 8, true, true, true), 1)],
     };
-    run_plan("C08", tier, RULE, base_assumptions(), &["pipelined-burst", "oneway-call", "burst-cut-mid-frame", "several-events-before-a-poll"], plan)
+    // clients come and go: a client that hangs up (EOF) or whose socket stops taking writes (it is
+    // gone while subscribed to a stream) is ordinary traffic for the others, who must still get
+    // exactly their replies, on their own connections
+    let mut plan = plan;
+    let leaving: Vec<Vec<CK>> = vec![vec![CK::P], vec![CK::W(1, false)], vec![CK::P, CK::P]];
+    plan.push((
+        "3conns/clients-that-leave",
+        ScenCfg { prop: "C08".into(), max_conns: 3, max_calls: 4, max_events: tier.pick(8, 9), bursts: leaving, faults: vec![Fault::WriteError, Fault::Eof], max_faults: 1, closes: false, cuts: false, short_reads: false, delay_polls: false, write_fault_on_stream: true },
+        0,
+    ));
+    run_plan("C08", tier, RULE, base_assumptions(), &["pipelined-burst", "oneway-call", "burst-cut-mid-frame", "several-events-before-a-poll", "fault-with-other-connections-live"], plan)
 }
 
 pub fn run_c09(tier: Tier) -> i32 {
